@@ -248,7 +248,7 @@ def static_never_grows(prog, res):
     for fb in prog.fns_in("compress/zstd_compress.c"):
         for b, i, c in fb.calls("ZSTD_cwksp_bump_oversized_duration"):
             bumps += 1
-            heap = cond_edges(fb, lambda cc: cc.get("k") == "mem" and cc.get("f") == "staticSize", "false")
+            heap = guards.truthy_edges(fb, lambda cc: cc.get("k") == "mem" and cc.get("f") == "staticSize", truth=False)
             res.check(bool(heap) and fb.must_pass(via_edges=heap, targets=[(b, i)]), R, "%s:oversized-duration-heap-only" % fb.name, "%s:%s" % (fb.file, c.get("l")),
                       "the oversized-duration counter only advances on the !staticSize edge",
                       "%s advances the workspace's oversized-duration counter for static contexts too: after %s consecutive small operations the workspace is "
